@@ -307,6 +307,28 @@ def check_max(prog: Program, res: Result) -> None:
     sl = [n for n in walk_function(g.node) if isinstance(n, ast.Subscript) and norm(n.value) == "instances"]
     ok = len(sl) == 2 and all(isinstance(n.slice, ast.Tuple) and len(n.slice.elts) >= 2 and norm(n.slice.elts[1]) == ":num_instances" and norm(n.slice.elts[0]) == ":" for n in sl)
     res.ob(R, ok, g.qualname, "only the first num_instances instances are drawn", "generate_multiconfmaps does not slice instances[:, :num_instances]", g.where)
+    # ... and ALL of them: what reaches make_multi_confmaps is that slice and nothing else (no mask / index selection that
+    # could drop an animal with some labelled nodes)
+    mc = [c for c, q in prog.calls_in(g) if q == f"{CM}:make_multi_confmaps"]
+    res.ob(R, len(mc) == 1, g.qualname, "one make_multi_confmaps call", f"{len(mc)} calls of make_multi_confmaps", g.where)
+    if len(mc) == 1:
+        from ..core.program import enclosing_stmt
+        b_ = astq.bind_args(prog.func(f"{CM}:make_multi_confmaps"), mc[0])
+        st_ = enclosing_stmt(mc[0])
+        pe = astq.expand_at(g.node, b_.get("points_batch"), st_)
+        # if/else joins: look at every definition that can reach the call
+        alts = [pe]
+        if isinstance(pe, ast.Name):
+            alts = [astq.expand_at(g.node, d_.value, d_) for d_ in astq.assignments_to(g.node, pe.id) if isinstance(d_, ast.Assign)]
+        def _plain(e):
+            e = astq.peel(e, "unsqueeze", "float", "to", "contiguous")
+            if not (isinstance(e, ast.Subscript) and norm(e.value) == "instances"):
+                return False
+            idx = e.slice.elts if isinstance(e.slice, ast.Tuple) else [e.slice]
+            return all(isinstance(i_, ast.Slice) for i_ in idx) and len(idx) >= 2 and norm(idx[1]) == ":num_instances" and all(norm(i_) == ":" for k_, i_ in enumerate(idx) if k_ != 1)
+        res.ob(R, bool(alts) and all(_plain(a_) for a_ in alts), g.qualname, "every one of those instances is drawn (no filtering before the maps are made)",
+               f"the points handed to make_multi_confmaps are `{'` / `'.join(short(a_, 60) for a_ in alts)}`: instances are filtered or re-indexed before drawing, "
+               "so an animal with some labelled nodes can lose its bumps", f"{g.module.relpath}:{mc[0].lineno}")
     res.floor(R, 6)
 
 
